@@ -11,12 +11,15 @@ CONSTANTS
   Variant = "fresh"
   ElemOf <- Elem3
   CacheVariant = "none"
+  OwnerVariant = "keep"
 INVARIANT TypeOK
 INVARIANT ListsExactlyItsSpecies
 INVARIANT OwnerAlive
 INVARIANT PhaseElementsAreUnionOfSpecies
+INVARIANT MovedSpeciesRefersToItsPhase
 PROPERTY Frame
 PROPERTY NewIsWhatWasGiven
 PROPERTY OwnerAfterInsert
+PROPERTY RemovalKeepsForeignReference
 VIEW ViewDepth
 CHECK_DEADLOCK FALSE
